@@ -122,7 +122,7 @@ class Ctx:
 
 
 # ------------------------------------------------------------------ the proved tie (translator) and its falsifier
-EXT_PIDS = {"C01", "C02", "C03", "C04", "C05", "C06", "C07", "C08", "C09", "C12", "C13", "C14", "C15", "C16", "C18"}
+EXT_PIDS = {"C01", "C02", "C03", "C04", "C05", "C06", "C07", "C08", "C09", "C10", "C12", "C13", "C14", "C15", "C16", "C18"}
 TOOLPY = "/opt/veriftools/pyvenv/bin/python"
 
 CONFIG_DEP = re.compile(r"#\[cfg\]|conditionally compiled|depends on the\s+build configuration|build configuration")
@@ -170,15 +170,36 @@ def ext_stage(ctx, ob, pid):
         def _why(k):
             return str(((res["report"].get(k.split(".")[0]) or {}).get("skipped") or {}).get(k.split(".", 1)[1], ""))
         missing = sorted(set(missing) | {k for k in exp if k not in res["theorems"] and CONFIG_DEP.search(_why(k))})
-    broken = sorted(k for k, v in mine.items() if not v["ok"])
-    info.update(ran=True, key=res["key"], cached=res.get("cached"), theorems=len(mine), proved=len(mine) - len(broken),
-                broken=broken, left_fragment=missing,
-                untranslated={u: r.get("skipped") or r.get("error") for u, r in res["report"].items() if r.get("skipped") or r.get("error")})
+    # root causes only: a theorem that fails because a theorem it uses failed is listed in a note (unless its root cause is an
+    # obligation of another property: then it is what this property has to report)
+    all_th = res["theorems"]
+    dependents = {k: v["depends_on_broken"] for k, v in mine.items() if not v["ok"] and v.get("depends_on_broken")
+                  and any(r in mine for r in v["depends_on_broken"])}
+    broken = sorted(k for k, v in mine.items() if not v["ok"] and k not in dependents)
+    if dependents:
+        ctx.notes.append("ExtTie theorems not re-proved only because a theorem they use is broken: " +
+                         "; ".join(f"{k} <- {', '.join(v)}" for k, v in sorted(dependents.items())))
+    info.update(ran=True, key=res["key"], cached=res.get("cached"), theorems=len(mine), proved=len(mine) - len(broken) - len(dependents),
+                broken=broken, depends_on_broken=dependents, left_fragment=missing,
+                untranslated={u: r.get("skipped") or r.get("error") for u, r in res["report"].items() if r.get("skipped") or r.get("error")},
+                rand_core={k: v for k, v in (res["report"].get("rand_core") or {}).items() if k in ("version", "sha256", "error")})
+    pinned_rc = (json.load(open(os.path.join(common.VERIF, "pinned_src", "EXPECTED.json"))).get("rand_core") or {}) \
+        if os.path.exists(os.path.join(common.VERIF, "pinned_src", "EXPECTED.json")) else {}
+    if pinned_rc.get("sha256") and info["rand_core"].get("sha256") and pinned_rc["sha256"] != info["rand_core"]["sha256"]:
+        ctx.notes.append("rand_core: the registry source differs from the pinned one (sha256 " + info["rand_core"]["sha256"][:16] + "…): "
+                         "the ExtTie.RandCore* theorems of this run are about the current registry source")
     for k, v in mine.items():
         ob["obligations"].append("ExtTie." + k)
         if v["ok"]:
             ob["discharged"].append("ExtTie." + k)
             ob["axioms"].update(v.get("axioms") or [])
+    if pid == "C10":
+        # a hand-written Clone / PartialEq of a type under the tie that no theorem speaks about (extract_units.unmodelled_impls)
+        unmod = {f"{u}.{fn}": msg for u, r in res["report"].items() if isinstance(r, dict) for fn, msg in (r.get("unmodelled") or {}).items()}
+        info["unmodelled"] = unmod
+        for k, msg in sorted(unmod.items()):
+            ob["obligations"].append("ExtTie." + k)
+            ob["broken"].append(("ExtTie." + k, msg))
     suspects = broken + missing
     if not suspects:
         return info
